@@ -28,6 +28,7 @@ type Engine struct {
 	specDepth int
 	specUsed  map[string]bool
 	repo      string
+	known     map[string]KnownFinding
 }
 
 func (tt *typeTags) tagName(name string) int {
